@@ -143,7 +143,8 @@ def runDeposit (_inp : List String) (out : String) : Option Res :=
     carried for a known snapshot by a member of that set is in state after the next block. -/
 def runProposal (_inp : List String) (out : String) : Option Res :=
   let recs := out.splitOn " ;; "
-  let keys : List (String × String) := ((recs.filter (·.startsWith "K ")).headD "K ").drop 2 |>.toString |> commaList |>.filterMap
+  -- the validators' bridge keys (the table is dumped again whenever a validator is created; a key never changes)
+  let keys : List (String × String) := ((recs.filter (·.startsWith "K ")).flatMap (fun k => commaList (k.drop 2).toString)).filterMap
     (fun kv => match kv.splitOn "=" with | [o, a] => some (o, a) | _ => none)
   let init : Bool × String × List (String × String) × List String × List String × Nat × Nat × List String × List String × Nat × Nat :=
     (true, "", [], [], [], 0, 0, [], [], 0, 0)
